@@ -1,4 +1,8 @@
-import DepsDev.Drive.Semver
+import DepsDev.Model.Resolve.ClientWire
+import DepsDev.Drive.Loop
 open DepsDev
 
-def main : IO Unit := Drive.runDriver "C12" Drive.Semver.handleOrBad
+/-- C12 driver: `matchreq`, `sortv` answered by the model of match.go. -/
+def handleC12 (args : List String) : String := (Resolve.Wire.handleC12 args).getD "bad-op"
+
+def main : IO Unit := Drive.runDriver "C12" handleC12
